@@ -278,6 +278,8 @@ def oracle(net, out_inds, got_m, got_e, ref, refabs):
     shape = tuple(net.sizes[i] for i in out_inds)
     if m.shape != shape:
         return f"shape {m.shape} != {shape}"
+    if abs(float(got_e) - L) > 280:
+        return f"exponent {float(got_e)!r} is {float(got_e) - L:.1f} decades away from log10 max|result| = {L!r}"
     sc = 10.0 ** (float(got_e) - L)
     worst = None
     import itertools
@@ -304,6 +306,18 @@ def reference(net, exact, fixed=None):
     _, ref = refimpl.dense_einsum(net.inputs, net.output, net.sizes, exact, fixed=fixed)
     _, refabs = refimpl.dense_einsum(net.inputs, net.output, net.sizes, abs_arrays(exact), fixed=fixed)
     return ref, refabs
+
+
+def is_nonzero(ref, refabs):
+    """the exact result is non-zero *and* not mere rounding noise of the float inputs: if
+    max|ref| < 1e-9 max refabs the mathematical result (the integers behind the scaled inputs)
+    cancels completely and what is left of it in exact arithmetic is the rounding of the scales;
+    floating point may then return an exact 0 -- the property is silent there"""
+    top = max([abs(v) for v in ref.values()], default=0)
+    if top == 0:
+        return False
+    topa = max([abs(v) for v in refabs.values()], default=0)
+    return float(top / topa) >= 1e-9
 
 
 # ------------------------------------------------------------------------------------ model side
@@ -378,7 +392,7 @@ def check_case(ctx, drv, case, corr=True):
     st, res = call_real(lambda: tree.contract(farrays, **kw))
     exact = exact_arrays(farrays)
     ref, refabs = reference(net, exact)
-    nonzero = any(v != 0 for v in ref.values())
+    nonzero = is_nonzero(ref, refabs)
     # exact value of every slice (which slices are identically zero?)
     nsl = tree.nslices
     zero_slices = []
@@ -420,6 +434,10 @@ def check_case(ctx, drv, case, corr=True):
                           f"tree.contract(strip_exponent=True, check_zero={cz}) raises {res} although the "
                           f"result is non-zero ({len(zero_slices)} zero-valued slice(s) of {nsl})")
             ok = False
+        elif not (isinstance(res, tuple) and len(res) == 2):
+            ctx.violation(dict(sig_base, **{"class": "shape"}), {"case": case},
+                          "tree.contract(strip_exponent=True) does not return a (mantissa, exponent) pair")
+            return False
         else:
             m, e = res
             s = status_of(m, e)
@@ -461,8 +479,8 @@ def check_case(ctx, drv, case, corr=True):
         ctx.traces += 1
         ms = resp["status"]
         ctx.count("model_status:" + ms)
-        if st_i == "exception":
-            ctx.corr_broken("contract_core raises " + res_i, case)
+        if st_i == "exception" or not (isinstance(res_i, tuple) and len(res_i) == 2):
+            ctx.corr_broken("contract_core raises / returns " + str(res_i)[:80], case)
             return ok
         m_i, e_i = res_i
         rs = status_of(m_i, e_i)
@@ -522,8 +540,9 @@ def check_case(ctx, drv, case, corr=True):
             return ok
         ctx.traces += 1
         ctx.count("gather_model_status:" + g["status"])
-        if st == "exception":
-            ctx.corr_broken(f"tree.contract raises {res}; the model gathers to status {g['status']}", case)
+        if st == "exception" or not (isinstance(res, tuple) and len(res) == 2):
+            ctx.corr_broken(f"tree.contract raises / returns {str(res)[:60]}; the model gathers to status "
+                            f"{g['status']}", case)
             return ok
         m, e = res
         rs = status_of(m, e)
@@ -562,7 +581,7 @@ def check_interface(ctx, case, net, farrays):
     n = len(net.inputs)
     exact = exact_arrays(farrays)
     ref, refabs = reference(net, exact)
-    nonzero = any(v != 0 for v in ref.values())
+    nonzero = is_nonzero(ref, refabs)
     ctx.case(case, nontrivial=nonzero and n >= 2)
     ctx.count("interface:" + case["interface"] + (":single" if n == 1 else ""))
     inputs, output, sd = net.sym_inputs(), net.sym_output(), net.sym_sizes()
@@ -656,7 +675,7 @@ def _replay_corpus(ctx, drv):
 def run(ctx, drv):
     _replay_corpus(ctx, drv)
     add_pairs_tie(ctx, drv)
-    ncases = 260 if ctx.tier == "quick" else 4000
+    ncases = 2500 if ctx.tier == "quick" else 40000
     for _ in range(ncases):
         if ctx.time_left() < 20:
             break
@@ -694,6 +713,10 @@ class _Quiet:
         pass
 
     def violation(self, sig, replay, what, **k):
+        for e in self.ctx._known:
+            if e.get("property") == PROP and e.get("kind") == "known" and common._sig_match(e["match"], sig):
+                print("KNOWN-FINDING:", e["what"][:120], "...")
+                return False
         self.failed = True
         print("#", what)
         return True
